@@ -242,9 +242,32 @@ def run(ctx):
                    '' if ok else '%s adds its ORDER BY terms with `%s`, i.e. after the terms of earlier order_by calls; its siblings prepend (`order[:0] = ...`): '
                    'q.order_by(a).order_by(b) then sorts by a first, unlike sorted(sorted(rows, key=a), key=b)' % (f.qual, norm(st)), node=st, expected='order[:0] = new_order')
     ctx.floor('C24-CHAIN', nch, 3, 'statements that add terms to an existing ORDER BY list')
+    # a lazy limited subquery (`x in q.limit(n)`, `for y in q[:n]`) takes part in the cache keys through QueryType: two of them are equal only if their
+    # limits are -- limit 0 (no rows) and no limit (all rows) included.  In QueryType.__eq__ every read of `.limit` sits in a lossless position: an
+    # operand of == / an element of a compared tuple, never under `or`, a truth test, bool() ...
+    qt = repo.fn('pony.orm.ormtypes', 'QueryType.__eq__')
+    par = {}
+    for x in ast.walk(qt.node):
+        for c in ast.iter_child_nodes(x): par[c] = x
+    reads = [x for x in ast.walk(qt.node) if isinstance(x, ast.Attribute) and x.attr == 'limit' and isinstance(x.ctx, ast.Load)]
+    lossy = []
+    for r_ in reads:
+        y = r_
+        while y in par and not isinstance(par[y], ast.stmt):
+            p_ = par[y]
+            fine = isinstance(p_, (ast.Tuple, ast.List)) or (isinstance(p_, ast.Compare) and all(isinstance(o, (ast.Eq, ast.NotEq)) for o in p_.ops)) or \
+                (isinstance(p_, ast.BoolOp) and isinstance(p_.op, ast.And) and isinstance(y, ast.Compare))
+            if not fine: lossy.append((r_, p_)); break
+            y = p_
+    owners = {dotted(r_.value) for r_ in reads}
+    ok = len(owners) >= 2 and not lossy
+    ctx.ob('C24-RANGE.limited-subquery-type-distinguishes-every-limit', qt, lossy[0][1] if lossy else qt.node, ok,
+           '' if ok else ('QueryType.__eq__ compares `%s`, which maps different limits to the same value (0 and None): `x in q.limit(0)` and `x in q` then share one cache key and '
+                          'one of them is answered with the other\'s SQL' % norm(lossy[0][1])) if lossy else 'QueryType.__eq__ does not compare the limits of both operands')
 
 
 MUTANTS = [
+    dict(id='C24-qt', file='pony/orm/ormtypes.py', fn='QueryType.__eq__', old="and self.limit == other.limit and self.offset == other.offset", new="and bool(self.limit) == bool(other.limit) and self.offset == other.offset", expect='C24-RANGE.limited-subquery-type'),
     dict(id='C24-o1', file='pony/orm/sqltranslation.py', fn='SQLTranslator.construct_delete_sql_ast', old="                if translator.order: subquery_ast.append([ 'ORDER_BY' ] + translator.order)\n                limit = translator.limit if translator.limit is not None else -1 if translator.dialect == 'SQLite' else None\n",
          new="                limit = translator.limit\n                if limit is None:\n                    if translator.dialect == 'SQLite': limit = -1\n                elif translator.order: subquery_ast.append([ 'ORDER_BY' ] + translator.order)\n", expect='C24-SIBLING.limited'),
     dict(id='C24-s9', file='pony/orm/sqltranslation.py', fn='SQLTranslator.construct_delete_sql_ast', old="                if translator.having_conditions:\n                    subquery_ast.append([ 'HAVING' ] + translator.having_conditions)\n", new="", expect='C24-SIBLING'),
